@@ -266,4 +266,273 @@ Section Refine.
         * cbn [lseq]. rewrite Hgm. rewrite (nth_flat _ _ _ _ Hn) by (rewrite Hk; lia). rewrite Hk.
           first [reflexivity | exact En | (symmetry; exact En)].
   Qed.
+
+  (* ================= absolute moves: iter_index_blocks / initial_index_blocks ================= *)
+  Inductive absmove : mv -> Prop := abs_first : absmove MFirst | abs_last : absmove MLast | abs_ge q : absmove (MGe q).
+  Definition sel (m : mv) (es : list entry) : nat :=
+    match m with
+    | MFirst => 0%nat
+    | MLast => (length es - 1)%nat
+    | MGe q => ceil_pos es q
+    | _ => 0%nat
+    end.
+
+  Lemma abs_move m c off b es ridx : absmove m -> bstore off = Some (b, es, ridx) -> bc_blk c = b ->
+    bc_move m c = Done (mk_bcur b (Some (start es (sel m es))), nth_error es (sel m es)).
+  Proof.
+    intros Hm E Hb. destruct (Hld _ _ _ _ E) as (_ & W & Hne). destruct c as [cb co]. cbn [bc_blk] in Hb. subst cb.
+    destruct Hm; cbn [bc_move sel].
+    - exact (bc_first_spec b es ridx W co).
+    - apply (bc_last_spec b es ridx W co). destruct es; [congruence|cbn [length]; lia].
+    - exact (bc_ge_spec b es ridx W co q).
+  Qed.
+
+  (* offsets of the blocks of level k *)
+  Definition offs (k : nat) : list N := match k with O => [root] | S k' => map coff (lseq k') end.
+  Definition valid_pair (p : N * bcur) : Prop := exists b es ridx, bstore (fst p) = Some (b, es, ridx) /\ bc_blk (snd p) = b.
+  Definition ok_pair (k : nat) (p : N * bcur) : Prop := valid_pair p \/ ~ In (fst p) (offs k).
+  Fixpoint coherent (k : nat) (lv : list (N * bcur)) : Prop :=
+    match lv with [] => True | p :: rest => ok_pair k p /\ coherent (S k) rest end.
+  Fixpoint all_valid (lv : list (N * bcur)) : Prop :=
+    match lv with [] => True | p :: rest => valid_pair p /\ all_valid rest end.
+
+  Lemma all_valid_coherent lv : forall k, all_valid lv -> coherent k lv.
+  Proof. induction lv as [|p r IH]; intros k H; cbn [coherent all_valid] in *; [exact I|]. destruct H; split; [left; assumption|auto]. Qed.
+
+  (* the path selected by m from (level k, global index gp) going cnt levels down *)
+  Fixpoint sdesc (m : mv) (k gp cnt : nat) : option nat :=
+    match cnt with
+    | O => Some gp
+    | S c' => match nth_error (lseq k) gp with
+              | None => None
+              | Some pit => let j := sel m (kids pit) in
+                            if Nat.ltb j (length (kids pit)) then sdesc m (S k) (gstart (lseq k) gp + j) c' else None
+              end
+    end.
+
+  Lemma iter_gen m : absmove m -> forall lv k up gp pit n,
+    positioned up k gp -> nth_error (lseq k) gp = Some pit -> item_ok pit -> coherent (S k) lv -> lv <> [] ->
+    (forall k', (k < k' <= k + length lv)%nat -> Forall item_ok (lseq k')) ->
+    exists lv' n' ok, iter_walk ld m n (coff pit) lv = Done (lv', n', ok) /\
+      n <= n' <= n + N.of_nat (length lv) /\ length lv' = length lv /\
+      match sdesc m k gp (length lv) with
+      | Some g => ok = true /\ positioned (rev lv' ++ up) (k + length lv) g /\ all_valid lv'
+      | None => ok = false /\ coherent (S k) lv'
+      end.
+  Proof.
+    intro Hm. induction lv as [|[o c] rest IH]; intros k up gp pit n Hp Hn Hok Hc Hne Hitems; [congruence|].
+    cbn [iter_walk]. destruct Hc as [Hokp Hrest].
+    destruct (bstore (coff pit)) as [[[b es] ridx]|] eqn:E; [|destruct Hok as [_ Hx]; congruence].
+    destruct (Hld _ _ _ _ E) as (Hl & W & Hnee).
+    assert (Hk : kids pit = es) by (unfold kids; rewrite E; reflexivity).
+    (* the cursor used at this level holds the parent's child block *)
+    assert (Hcur : exists c0 n0, (if coff pit =? o then Done (o, c, n) else do b0 <- ld n (coff pit); Done (coff pit, bc_new b0, n + 1))
+                                 = Done (coff pit, c0, n0) /\ bc_blk c0 = b /\ n <= n0 <= n + 1).
+    { destruct (N.eqb_spec (coff pit) o) as [Eo|Eo].
+      - subst o. exists c, n. split; [reflexivity|]. split; [|lia].
+        destruct Hokp as [(b' & es' & r' & E' & Hb')|Hh]; cbn [fst snd] in *.
+        + rewrite E in E'. injection E' as <- <- <-. exact Hb'.
+        + exfalso. apply Hh. cbn [offs]. apply in_map. eapply nth_error_In; exact Hn.
+      - rewrite (Hl n). cbn [bind]. exists (bc_new b), (n + 1). split; [reflexivity|]. split; [reflexivity|lia]. }
+    destruct Hcur as (c0 & n0 & Ec & Hb0 & Hn0). rewrite Ec. cbn [bind].
+    rewrite (abs_move m c0 (coff pit) b es ridx Hm E Hb0). cbn [bind].
+    cbn [length sdesc]. rewrite Hn. cbv zeta. rewrite Hk. set (j := sel m es).
+    destruct (nth_error es j) as [[kj obj]|] eqn:Ej.
+    - assert (Hj : (j < length es)%nat) by (apply nth_error_Some; congruence).
+      destruct (Nat.ltb_spec j (length es)); [|lia].
+      set (c1 := mk_bcur b (Some (start es j))).
+      assert (Hp1 : positioned ((coff pit, c1) :: up) (S k) (gstart (lseq k) gp + j)).
+      { eapply pos_step; [exact Hp | exact Hn | exact Hok |]. exists b, es, ridx. auto. }
+      assert (Hn1 : nth_error (lseq (S k)) (gstart (lseq k) gp + j) = Some (kj, obj)).
+      { cbn [lseq]. rewrite (nth_flat _ _ _ _ Hn) by (rewrite Hk; exact Hj). rewrite Hk. exact Ej. }
+      assert (Hok1 : item_ok (kj, obj)).
+      { pose proof (Hitems (S k) ltac:(cbn [length]; lia)) as F. rewrite Forall_forall in F. apply F. eapply nth_error_In. exact Hn1. }
+      pose proof (off_of_item (kj, obj) Hok1) as Ho1. cbn [snd] in Ho1. rewrite Ho1. cbn [bind].
+      assert (Hv1 : valid_pair (coff pit, c1)) by (exists b, es, ridx; auto).
+      destruct rest as [|p2 rest2].
+      + cbn [iter_walk bind length sdesc rev app]. exists [(coff pit, c1)], n0, true.
+        split; [reflexivity|]. split; [lia|]. split; [reflexivity|].
+        replace (k + 1)%nat with (S k) by lia. split; [reflexivity|]. split; [exact Hp1|]. cbn [all_valid]. auto.
+      + destruct (IH (S k) _ _ (kj, obj) n0 Hp1 Hn1 Hok1 Hrest ltac:(discriminate)
+                     ltac:(intros k' Hk'; apply Hitems; cbn [length] in *; lia)) as (rest' & n' & ok & Er & Hn' & Hlen & Hres).
+        rewrite Er. cbn [bind]. exists ((coff pit, c1) :: rest'), n', ok.
+        split; [reflexivity|]. split; [cbn [length] in *; lia|]. split; [cbn [length]; rewrite Hlen; reflexivity|].
+        replace (k + S (length (p2 :: rest2)))%nat with (S k + length (p2 :: rest2))%nat by lia.
+        destruct (sdesc m (S k) (gstart (lseq k) gp + j) (length (p2 :: rest2))) as [g|].
+        * destruct Hres as (A & B & C). split; [exact A|]. cbn [rev]. rewrite <- app_assoc. cbn [app].
+          split; [exact B|]. cbn [all_valid]. auto.
+        * destruct Hres as [A B]. split; [exact A|]. cbn [coherent]. split; [left; exact Hv1|exact B].
+    - assert (Hj : (length es <= j)%nat) by (apply nth_error_None; exact Ej).
+      destruct (Nat.ltb_spec j (length es)); [lia|].
+      eexists _, n0, false. split; [reflexivity|]. split; [cbn [length]; lia|]. split; [reflexivity|].
+      split; [reflexivity|]. cbn [coherent]. split; [|exact Hrest].
+      left. exists b, es, ridx. cbn [fst snd bc_blk]. auto.
+  Qed.
+
+  (* file positions are distinct: a block of level k+1 is never a block of level k *)
+  Hypothesis Hdisj : forall k it, In it (lseq k) -> ~ In (coff it) (offs k).
+
+  Lemma init_gen m : absmove m -> forall depth k up gp pit n,
+    positioned up k gp -> nth_error (lseq k) gp = Some pit -> item_ok pit ->
+    (forall k', (k < k' <= k + depth)%nat -> Forall item_ok (lseq k')) ->
+    exists res n', initial_blocks ld m depth n (coff pit) = Done (res, n') /\ n <= n' <= n + N.of_nat depth /\
+      match sdesc m k gp depth with
+      | Some g => exists lv', res = Some lv' /\ length lv' = depth /\ positioned (rev lv' ++ up) (k + depth) g /\ coherent (S k) lv'
+      | None => res = None
+      end.
+  Proof.
+    intro Hm. induction depth as [|depth IH]; intros k up gp pit n Hp Hn Hok Hitems.
+    - cbn [initial_blocks sdesc]. exists (Some []), n. split; [reflexivity|]. split; [lia|].
+      exists []. cbn [rev app length coherent]. replace (k + 0)%nat with k by lia. auto.
+    - cbn [initial_blocks].
+      destruct (bstore (coff pit)) as [[[b es] ridx]|] eqn:E; [|destruct Hok as [_ Hx]; congruence].
+      destruct (Hld _ _ _ _ E) as (Hl & W & Hnee).
+      assert (Hk : kids pit = es) by (unfold kids; rewrite E; reflexivity).
+      rewrite (Hl n). cbn [bind]. rewrite (abs_move m (bc_new b) (coff pit) b es ridx Hm E eq_refl). cbn [bind].
+      cbn [sdesc]. rewrite Hn. cbv zeta. rewrite Hk. set (j := sel m es).
+      destruct (nth_error es j) as [[kj obj]|] eqn:Ej.
+      + assert (Hj : (j < length es)%nat) by (apply nth_error_Some; congruence).
+        destruct (Nat.ltb_spec j (length es)); [|lia].
+        set (c1 := mk_bcur b (Some (start es j))).
+        assert (Hn1 : nth_error (lseq (S k)) (gstart (lseq k) gp + j) = Some (kj, obj)).
+        { cbn [lseq]. rewrite (nth_flat _ _ _ _ Hn) by (rewrite Hk; exact Hj). rewrite Hk. exact Ej. }
+        assert (Hok1 : item_ok (kj, obj)).
+        { pose proof (Hitems (S k) ltac:(lia)) as F. rewrite Forall_forall in F. apply F. eapply nth_error_In. exact Hn1. }
+        pose proof (off_of_item (kj, obj) Hok1) as Ho1. cbn [snd] in Ho1. rewrite Ho1. cbn [bind].
+        assert (Hp1 : forall o, positioned ((o, c1) :: up) (S k) (gstart (lseq k) gp + j)).
+        { intro o. eapply pos_step; [exact Hp | exact Hn | exact Hok |]. exists b, es, ridx. auto. }
+        destruct (IH (S k) _ _ (kj, obj) (n + 1) (Hp1 (coff (kj, obj))) Hn1 Hok1
+                     ltac:(intros k' Hk'; apply Hitems; lia)) as (res & n' & Er & Hn' & Hres).
+        rewrite Er. cbn [bind]. 
+        replace (k + S depth)%nat with (S k + depth)%nat by lia.
+        destruct (sdesc m (S k) (gstart (lseq k) gp + j) depth) as [g|].
+        * destruct Hres as (lv' & -> & Hlen & Hpos & Hcoh).
+          exists (Some ((coff (kj, obj), c1) :: lv')), n'. split; [reflexivity|]. split; [lia|].
+          exists ((coff (kj, obj), c1) :: lv'). split; [reflexivity|]. split; [cbn [length]; lia|].
+          cbn [rev]. rewrite <- app_assoc. cbn [app]. split; [exact Hpos|].
+          cbn [coherent]. split; [|exact Hcoh]. right. cbn [fst]. apply Hdisj. eapply nth_error_In. exact Hn1.
+        * subst res. exists None, n'. split; [reflexivity|]. split; [lia|reflexivity].
+      + assert (Hj : (length es <= j)%nat) by (apply nth_error_None; exact Ej).
+        destruct (Nat.ltb_spec j (length es)); [lia|].
+        exists None, (n + 1). split; [reflexivity|]. split; [lia|reflexivity].
+  Qed.
+
+  (* ---- from the root ---- *)
+  Definition sroot (m : mv) (cnt : nat) : option nat :=
+    match cnt with
+    | O => None
+    | S c' => let j := sel m root_items in if Nat.ltb j (length root_items) then sdesc m 0 j c' else None
+    end.
+
+  Variable rb : block.
+  Variable rridx : list nat.
+  Hypothesis Hroot : bstore root = Some (rb, root_items, rridx).
+
+  Theorem iter_root m : absmove m -> forall lv n, coherent 0 lv -> lv <> [] ->
+    (forall k', (k' < length lv)%nat -> Forall item_ok (lseq k')) ->
+    exists lv' n' ok, iter_walk ld m n root lv = Done (lv', n', ok) /\
+      n <= n' <= n + N.of_nat (length lv) /\ length lv' = length lv /\
+      match sroot m (length lv) with
+      | Some g => ok = true /\ positioned (rev lv') (length lv - 1) g /\ all_valid lv'
+      | None => ok = false /\ coherent 0 lv'
+      end.
+  Proof.
+    intros Hm lv n Hc Hne Hitems. destruct lv as [|[o c] rest]; [congruence|].
+    cbn [iter_walk]. destruct Hc as [Hokp Hrest].
+    destruct (Hld _ _ _ _ Hroot) as (Hl & W & Hnee).
+    assert (Hcur : exists c0 n0, (if root =? o then Done (o, c, n) else do b0 <- ld n root; Done (root, bc_new b0, n + 1))
+                                 = Done (root, c0, n0) /\ bc_blk c0 = rb /\ n <= n0 <= n + 1).
+    { destruct (N.eqb_spec root o) as [Eo|Eo].
+      - subst o. exists c, n. split; [reflexivity|]. split; [|lia].
+        destruct Hokp as [(b' & es' & r' & E' & Hb')|Hh]; cbn [fst snd] in *.
+        + rewrite Hroot in E'. injection E' as <- _ _. exact Hb'.
+        + exfalso. apply Hh. left. reflexivity.
+      - rewrite (Hl n). cbn [bind]. exists (bc_new rb), (n + 1). split; [reflexivity|]. split; [reflexivity|lia]. }
+    destruct Hcur as (c0 & n0 & Ec & Hb0 & Hn0). rewrite Ec. cbn [bind].
+    rewrite (abs_move m c0 root rb root_items rridx Hm Hroot Hb0). cbn [bind].
+    cbn [length sroot]. cbv zeta. set (j := sel m root_items).
+    destruct (nth_error root_items j) as [[kj obj]|] eqn:Ej.
+    - assert (Hj : (j < length root_items)%nat) by (apply nth_error_Some; congruence).
+      destruct (Nat.ltb_spec j (length root_items)); [|lia].
+      set (c1 := mk_bcur rb (Some (start root_items j))).
+      assert (Hp1 : positioned [(root, c1)] 0 j) by (apply pos_root; exists rb, root_items, rridx; auto).
+      assert (Hn1 : nth_error (lseq 0) j = Some (kj, obj)) by exact Ej.
+      assert (Hok1 : item_ok (kj, obj)).
+      { pose proof (Hitems 0%nat ltac:(cbn [length]; lia)) as F. rewrite Forall_forall in F. apply F. eapply nth_error_In. exact Hn1. }
+      pose proof (off_of_item (kj, obj) Hok1) as Ho1. cbn [snd] in Ho1. rewrite Ho1. cbn [bind].
+      assert (Hv1 : valid_pair (root, c1)) by (exists rb, root_items, rridx; auto).
+      destruct rest as [|p2 rest2].
+      + cbn [iter_walk bind sdesc rev app length]. exists [(root, c1)], n0, true.
+        split; [reflexivity|]. split; [lia|]. split; [reflexivity|].
+        split; [reflexivity|]. split; [exact Hp1|]. cbn [all_valid]. auto.
+      + destruct (iter_gen m Hm (p2 :: rest2) 0%nat [(root, c1)] j (kj, obj) n0 Hp1 Hn1 Hok1 Hrest ltac:(discriminate)
+                   ltac:(intros k' Hk'; apply Hitems; cbn [length] in *; lia)) as (rest' & n' & ok & Er & Hn' & Hlen & Hres).
+        rewrite Er. cbn [bind]. exists ((root, c1) :: rest'), n', ok.
+        split; [reflexivity|]. split; [cbn [length] in *; lia|]. split; [cbn [length]; rewrite Hlen; reflexivity|].
+        cbn [plus] in Hres. replace (S (length (p2 :: rest2)) - 1)%nat with (length (p2 :: rest2)) by lia.
+        destruct (sdesc m 0 j (length (p2 :: rest2))) as [g|].
+        * destruct Hres as (A & B & C). split; [exact A|]. cbn [rev]. split; [exact B|]. cbn [all_valid]. auto.
+        * destruct Hres as [A B]. split; [exact A|]. cbn [coherent]. split; [left; exact Hv1|exact B].
+    - assert (Hj : (length root_items <= j)%nat) by (apply nth_error_None; exact Ej).
+      destruct (Nat.ltb_spec j (length root_items)); [lia|].
+      eexists _, n0, false. split; [reflexivity|]. split; [cbn [length]; lia|]. split; [reflexivity|].
+      split; [reflexivity|]. cbn [coherent]. split; [|exact Hrest].
+      left. exists rb, root_items, rridx. cbn [fst snd bc_blk]. auto.
+  Qed.
+
+  Theorem init_root m : absmove m -> forall depth n, (0 < depth)%nat ->
+    (forall k', (k' < depth)%nat -> Forall item_ok (lseq k')) ->
+    exists res n', initial_blocks ld m depth n root = Done (res, n') /\ n <= n' <= n + N.of_nat depth /\
+      match sroot m depth with
+      | Some g => exists lv', res = Some lv' /\ length lv' = depth /\ positioned (rev lv') (depth - 1) g /\ coherent 0 lv'
+      | None => res = None
+      end.
+  Proof.
+    intros Hm depth n Hd Hitems. destruct depth as [|depth]; [lia|].
+    cbn [initial_blocks].
+    destruct (Hld _ _ _ _ Hroot) as (Hl & W & Hnee).
+    rewrite (Hl n). cbn [bind]. rewrite (abs_move m (bc_new rb) root rb root_items rridx Hm Hroot eq_refl). cbn [bind].
+    cbn [sroot]. cbv zeta. set (j := sel m root_items).
+    destruct (nth_error root_items j) as [[kj obj]|] eqn:Ej.
+    - assert (Hj : (j < length root_items)%nat) by (apply nth_error_Some; congruence).
+      destruct (Nat.ltb_spec j (length root_items)); [|lia].
+      set (c1 := mk_bcur rb (Some (start root_items j))).
+      assert (Hn1 : nth_error (lseq 0) j = Some (kj, obj)) by exact Ej.
+      assert (Hok1 : item_ok (kj, obj)).
+      { pose proof (Hitems 0%nat ltac:(lia)) as F. rewrite Forall_forall in F. apply F. eapply nth_error_In. exact Hn1. }
+      pose proof (off_of_item (kj, obj) Hok1) as Ho1. cbn [snd] in Ho1. rewrite Ho1. cbn [bind].
+      assert (Hp1 : positioned [(coff (kj, obj), c1)] 0 j) by (apply pos_root; exists rb, root_items, rridx; auto).
+      destruct (init_gen m Hm depth 0%nat [(coff (kj, obj), c1)] j (kj, obj) (n + 1) Hp1 Hn1 Hok1
+                   ltac:(intros k' Hk'; apply Hitems; lia)) as (res & n' & Er & Hn' & Hres).
+      rewrite Er. cbn [bind]. cbn [plus] in Hres. replace (S depth - 1)%nat with depth by lia.
+      destruct (sdesc m 0 j depth) as [g|].
+      + destruct Hres as (lv' & -> & Hlen & Hpos & Hcoh).
+        exists (Some ((coff (kj, obj), c1) :: lv')), n'. split; [reflexivity|]. split; [lia|].
+        exists ((coff (kj, obj), c1) :: lv'). split; [reflexivity|]. split; [cbn [length]; lia|].
+        cbn [rev]. split; [exact Hpos|]. cbn [coherent]. split; [|exact Hcoh].
+        right. cbn [fst]. apply (Hdisj 0%nat). eapply nth_error_In. exact Hn1.
+      + subst res. exists None, n'. split; [reflexivity|]. split; [lia|reflexivity].
+    - assert (Hj : (length root_items <= j)%nat) by (apply nth_error_None; exact Ej).
+      destruct (Nat.ltb_spec j (length root_items)); [lia|].
+      exists None, (n + 1). split; [reflexivity|]. split; [lia|reflexivity].
+  Qed.
+
+  (* the item under the deepest cursor of a positioned stack *)
+  Lemma positioned_current st d g : positioned st d g ->
+    last_current (rev st) = Done (nth_error (lseq d) g).
+  Proof.
+    intro H. assert (E : exists o c, st = (o, c) :: tl st /\ bc_current c = Done (nth_error (lseq d) g)).
+    { destruct H as [o c g (b & es & ridx & E & H1 & H2 & H3) | o c up d gp pit j Hp Hn Hok (b & es & ridx & E & H1 & H2 & H3)].
+      - exists o, c. split; [reflexivity|]. destruct (Hld _ _ _ _ E) as (_ & W & _).
+        destruct c as [cb co]; cbn [bc_blk bc_off] in *; subst cb co.
+        rewrite (bc_current_start b es ridx W g ltac:(lia)). cbn [lseq]. unfold root_items. rewrite E. reflexivity.
+      - exists o, c. split; [reflexivity|]. destruct (Hld _ _ _ _ E) as (_ & W & _).
+        destruct c as [cb co]; cbn [bc_blk bc_off] in *; subst cb co.
+        rewrite (bc_current_start b es ridx W j ltac:(lia)). cbn [lseq].
+        assert (Hk : kids pit = es) by (unfold kids; rewrite E; reflexivity).
+        rewrite (nth_flat _ _ _ _ Hn) by (rewrite Hk; exact H3). rewrite Hk. reflexivity. }
+    destruct E as (o & c & Est & Ecur). rewrite Est. unfold last_current. cbn [rev].
+    assert (L : forall (l : list (N * bcur)) x, last_opt (l ++ [x]) = Some x) by (intros; apply last_opt_snoc).
+    rewrite L. exact Ecur.
+  Qed.
 End Refine.
